@@ -126,6 +126,8 @@ func init() {
 			{Name: "random", TShards: 4, Run: c16Random},
 			{Name: "mismatch", Run: c16Mismatch},
 			{Name: "concurrent", Race: true, Run: c16Concurrent},
+			firstCallUnit(firstRegions),
+			{Name: "many", TShards: 2, Run: c16Many},
 		},
 	})
 }
@@ -480,5 +482,78 @@ func c16Concurrent(c *Ctx) {
 			k.c.Info(fmt.Sprintf("max_inflight_round%d", round), maxInflight.Load())
 			k.Nontrivial([]byte(fmt.Sprint(starts)), []byte(fmt.Sprint(ends)))
 		})
+	}
+}
+
+// c16Many: indexes over tens of thousands of intervals (interval NUMBERS beyond
+// 2^15, 2^16 and the UTF-16 surrogate range — anything that packs the numbers
+// of a set into bytes, runes or strings breaks there), laid out so that the
+// expected answer of every query is known without a scan: interval x covers
+// [2x, 2x+1), every wide interval number n+j covers [wideStart_j, wideEnd_j).
+func c16Many(c *Ctx) {
+	sizes := []int{70000}
+	if c.Thorough {
+		sizes = []int{70000, 140000, 1<<20 + 5}
+	}
+	for i, n := range sizes {
+		for variant := 0; variant < 2; variant++ {
+			c.Case(int64(2*i+variant), func(k *K) {
+				r := k.Rand()
+				starts, ends := make([]int, 0, n+8), make([]int, 0, n+8)
+				for x := 0; x < n; x++ {
+					starts, ends = append(starts, 2*x), append(ends, 2*x+1)
+				}
+				type wide struct{ lo, hi int }
+				var wides []wide
+				if variant == 1 {
+					for j := 0; j < 6; j++ {
+						lo := r.IntN(2 * n)
+						hi := lo + 1 + r.IntN(2*n-lo)
+						wides = append(wides, wide{lo, hi})
+						starts, ends = append(starts, lo), append(ends, hi)
+					}
+				}
+				k.Input("intervals", len(starts))
+				k.Input("wide_intervals", fmt.Sprint(wides))
+				ix := regions.NewIndex(starts, ends)
+				queries := []int{-1, 0, 1, 2*n - 2, 2*n - 1, 2 * n}
+				for _, x := range []int{127, 128, 255, 256, 32767, 32768, 55295, 55296, 55297, 56000, 57343, 57344, 65535, 65536, 65537, n - 1} {
+					if x < n {
+						queries = append(queries, 2*x, 2*x+1)
+					}
+				}
+				for q := 0; q < 3000; q++ {
+					queries = append(queries, r.IntN(2*n))
+				}
+				step := 1
+				if n > 200000 {
+					step = 7
+				}
+				for q := 0; q < 2*n; q += step {
+					queries = append(queries, q)
+				}
+				for _, q := range queries {
+					var want []int
+					if q >= 0 && q < 2*n && q%2 == 0 {
+						want = append(want, q/2)
+					}
+					for j, w := range wides {
+						if w.lo <= q && q < w.hi {
+							want = append(want, n+j)
+						}
+					}
+					got := ix.At(q)
+					if !sameInts(got, want) {
+						k.Input("query", q)
+						k.Failf("at", "index over %d intervals: At(%d) = %v, want %v", len(starts), q, got, want)
+						return
+					}
+				}
+				k.Count("indexes_built", 1)
+				k.Count("queries_on_large_indexes", int64(len(queries)))
+				k.Evals(int64(len(queries) - 1))
+				k.Nontrivial([]byte(fmt.Sprint("many", n, variant)))
+			})
+		}
 	}
 }
